@@ -363,3 +363,12 @@ impl Args {
         self.extra.iter().any(|a| a == "--direct-only")
     }
 }
+
+/// Leave a note naming the input being processed: if the library hangs or aborts (stack overflow) the driver
+/// reports it as the failing input.  Removed by `clear_breadcrumb` when the run completes.
+pub fn breadcrumb(out: &Path, text: &str) {
+    let _ = std::fs::write(out.join("current_case.txt"), text);
+}
+pub fn clear_breadcrumb(out: &Path) {
+    let _ = std::fs::remove_file(out.join("current_case.txt"));
+}
